@@ -476,9 +476,11 @@ def feasible(extra, timeout_ms=3000):
     return not (r is not None and r[0] == "unsat")
 
 
-def check(name, goal, kind="ensures", note="", extra=(), fallback_extra=None):
+def check(name, goal, kind="ensures", note="", extra=(), fallback_extra=None, weak=False):
     """record a named obligation for the current path; a proved goal becomes a hypothesis.
-    fallback_extra: hypotheses (e.g. revealed definitions of opaque cuts) tried only if the goal is not proved without."""
+    fallback_extra: hypotheses (e.g. revealed definitions of opaque cuts) tried only if the goal is not proved without.
+    weak: the goal mentions uninterpreted stand-ins for real functions (sin, ellipk, ...): a counter-model may interpret them in a way
+    the real functions do not allow, so a satisfiable negation is only a candidate (failed-weak) until the native replay confirms it."""
     c = CTX
     if isinstance(goal, SB):
         goal = goal.e
@@ -500,6 +502,8 @@ def check(name, goal, kind="ensures", note="", extra=(), fallback_extra=None):
         if st2 == "proved" or st != "failed":
             st, model, be, smt2 = st2, model2, be2 + "+reveal", smt22
             extra = list(extra) + fb
+    if weak and st == "failed":
+        st = "failed-weak"
     o = Obl(c.prefix + name, st, model, be, secs, c.path_index, note, smt2, kind)
     rp = getattr(c, "record_prefixes", None)
     if rp is None or name.startswith(rp) or not name[:1] == "C":
